@@ -15,7 +15,7 @@ use sea_query::*;
 fn a(s: &str) -> Alias { Alias::new(s) }
 
 /// collapse runs of spaces outside quoted tokens; trim
-fn norm(sql: &str) -> String {
+pub fn norm(sql: &str) -> String {
     let b: Vec<char> = sql.chars().collect();
     let (mut i, mut out) = (0usize, String::new());
     while i < b.len() {
